@@ -756,3 +756,54 @@ package argmapper
 //@   loop 3 invariant forall(a, any, b, any, imp(old(edge(g, a, b)), edge(g, a, b)))
 //@   loop 3 invariant [linked-set] forall(b, any, imp(in(b, reqs), edge(g, hc(vertex), b)))
 //@   loop 3 invariant [requirements-in-set] forall(j, int, imp(0 <= j && j < len(as(vertex, *funcVertex).Func.input.values), in(vhash(as(vertex, *funcVertex).Func.input.values[j]), reqs)))
+
+// ---------------------------------------------------------------- args.go: argBuilder.graph (C01 C03 C13)
+// What the call machinery relies on in a builder: every stored value is a
+// valid reflect.Value, typed entries are keyed by a non-nil type, converters are well-formed.
+//@ pred bOK(b *argBuilder) bool = wfB(b)
+//@     && forall(k, string, imp(has(b.named, k), valid(b.named[k])))
+//@     && forall(k, string, s, string, imp(has(b.namedSub, k) && has(b.namedSub[k], s), valid(b.namedSub[k][s])))
+//@     && forall(t, reflect.Type, imp(has(b.typed, t), valid(b.typed[t]) && t != nil))
+//@     && forall(t, reflect.Type, s, string, imp(has(b.typedSub, t) && has(b.typedSub[t], s), valid(b.typedSub[t][s]) && t != nil))
+//@     && forall(i, int, imp(0 <= i && i < len(b.convs), funcOK(b.convs[i])))
+// a converter generator is user code: it returns nil or a Func built by this
+// library, and does not touch the graph under construction
+//@ assume-note T6: a ConverterGenFunc returns nil or a well-formed Func (one built by NewFunc/BuildFunc), reports failure only through its error result, and has no effect on the call graph, the builder or the ghost execution state
+//@ extern type:argmapper.ConverterGenFunc :: (v Value) (result0 *Func, result1 error)
+//@   ensures  result0 == nil || funcOK(result0)
+//@   assigns  Func, ValueSet, Value, valueInternal, []*Value, map[string]*Value, map[reflect.Type]*Value, map[string]string, []string, []interface{}, reflect.StructField, []reflect.StructField, []Arg, rvstore, rvfresh
+//@   modifies nothing
+
+//@ func newValueFromVertex
+//@   ensures  result == nil || fresh(result)
+//@   ensures  imp(typeis(v, *valueVertex) && as(v, *valueVertex) != nil, result != nil && result.Name == as(v, *valueVertex).Name && result.Type == as(v, *valueVertex).Type && result.Subtype == as(v, *valueVertex).Subtype && result.Value == as(v, *valueVertex).Value)
+//@   ensures  imp(typeis(v, *typedOutputVertex) && as(v, *typedOutputVertex) != nil, result != nil && result.Name == "" && result.Type == as(v, *typedOutputVertex).Type && result.Subtype == as(v, *typedOutputVertex).Subtype && result.Value == as(v, *typedOutputVertex).Value)
+//@   ensures  imp(!typeis(v, *valueVertex) && !typeis(v, *typedOutputVertex), result == nil)
+//@   requires imp(typeis(v, *valueVertex), as(v, *valueVertex) != nil) && imp(typeis(v, *typedOutputVertex), as(v, *typedOutputVertex) != nil)
+//@   assigns  Value, valueInternal
+//@   modifies nothing
+
+//@ ghost rooted(g *graph.Graph, vs []graph.Vertex, root graph.Vertex) bool = forall(i, int, imp(0 <= i && i < len(vs), edge(g, hc(vs[i]), hc(root)) && has(g.hash, hc(vs[i])) && (hkind(hc(vs[i])) == 1 || hkind(hc(vs[i])) == 3)))
+//@ func (*argBuilder).graph
+//@   requires g != nil && wf0(g) && gOK(g) && bOK(b) && has(g.hash, hc(root)) && hkind(hc(root)) == 5
+//@   ensures  [graph-kept-well-formed] wf(g) && gOK(g) && sameRefs(g)
+//@   ensures  [foot] footGrows(g)
+//@   ensures  [vertices-kept] forall(k, any, imp(old(has(g.hash, k)), has(g.hash, k)))
+//@   ensures  [rule-instances-only] imp(old(ruleInv(g)), ruleInv(g))
+//@   ensures  [edges-kept] forall(a, any, b, any, imp(old(edge(g, a, b)), edge(g, a, b)))
+//@   ensures  [inputs-attached-to-the-root] imp(result2 == nil, rooted(g, result0, root))
+//@   ensures  [supplied-converters-listed] imp(result2 == nil, len(result1) >= len(b.convs) && forall(i, int, imp(0 <= i && i < len(b.convs), result1[i] == b.convs[i])))
+//@   ensures  [generator-error-returned] imp(result2 != nil, result0 == nil && result1 == nil)
+//@   ensures  [no-user-code-but-generators] planning == old(planning) && failed == old(failed) && nexec == old(nexec)
+//@   assigns  graph.Graph, Outer, Inner, HashM, valueVertex, typedArgVertex, typedOutputVertex, funcVertex, []interface{}, reqs, []graph.Vertex, []*Func, Func, ValueSet, Value, valueInternal, []*Value, map[string]*Value, map[reflect.Type]*Value, map[string]string, []string, reflect.StructField, []reflect.StructField, []Arg, rvstore, rvfresh
+//@   modifies g, g.adjacencyOut, g.adjacencyIn, g.hash, forall(m, Inner, infoot(g, m))
+//@   loop * invariant wf(g) && sameRefs(g)
+//@   loop * invariant gOK(g)
+//@   loop * invariant footGrows(g)
+//@   loop * invariant bOK(b) && has(g.hash, hc(root)) && hkind(hc(root)) == 5
+//@   loop * invariant forall(k, any, imp(old(has(g.hash, k)), has(g.hash, k)))
+//@   loop * invariant imp(old(ruleInv(g)), ruleInv(g))
+//@   loop * invariant forall(a, any, b, any, imp(old(edge(g, a, b)), edge(g, a, b)))
+//@   loop * invariant rooted(g, result, root) && (result == nil || fresh(result)) && sliceskept([]graph.Vertex)
+//@   loop 8 invariant len(convs) >= len(b.convs) && forall(i, int, imp(0 <= i && i < len(b.convs), convs[i] == b.convs[i])) && fresh(convs) && sliceskept([]*Func)
+//@   loop 9 invariant len(convs) >= len(b.convs) && forall(i, int, imp(0 <= i && i < len(b.convs), convs[i] == b.convs[i])) && fresh(convs) && sliceskept([]*Func)
